@@ -73,6 +73,37 @@ def gen_case(rnd, nmax):
     return c
 
 
+def gen_wide_case(rnd):
+    """many unknowns: the number of missing blocks around the word boundaries of the bit rows (63..66, 72, 127..130, ...), dense rows"""
+    c = Case()
+    l = rnd.choice([63, 64, 65, 65, 66, 68, 72, 96, 127, 128, 129, 130, 134])
+    c.n = n = l + rnd.choice([0, 1, 3, 20, 60])
+    c.bs = rnd.choice([1, 2, 3])
+    c.vb = 256
+    c.cap = rnd.choice([l, l, l + 1, min(n, l + 7)])
+    c.fail = None
+    c.X = [rnd.getrandbits(8 * c.bs) for _ in range(n)]
+    style = rnd.random()
+    nrows = l + rnd.randint(8, 16)
+    c.tbl = {}
+    for k in range(nrows):
+        c.tbl[n + k] = ts004.row_mask(k + 1, n) if style < 0.5 else rnd.getrandbits(n)
+    if rnd.random() < 0.5:
+        lost = set(rnd.sample(range(n), l))
+    else:
+        a = rnd.randint(0, n - l); lost = set(range(a, a + l))        # a contiguous outage
+    have = [i for i in range(n) if i not in lost]
+    coded = list(c.tbl.keys())
+    seq = have + coded
+    if rnd.random() < 0.3:
+        # a late data block and a duplicate among the coded ones
+        k = rnd.randrange(len(have), len(seq)); seq.insert(k, rnd.choice(sorted(lost))); seq.insert(k, rnd.choice(have or coded))
+    c.cls = "wide"
+    c.blocks = [(i, c.enc(i)) for i in seq]
+    c.base = None
+    return c
+
+
 def parse(line):
     """result line -> dict(results, calls (list of event lists), data, done, used, l, badlen)"""
     p = line.split("|")
@@ -252,7 +283,7 @@ def run_stream(chk, count, nmax, variant="matrix", with_model=True, gets_matter=
     rnd = random.Random(chk.seed)
     fvh = core.build_harness(variant)
     core.gen_consts(fvh)
-    cases = [gen_case(rnd, nmax) for _ in range(count)]
+    cases = [gen_case(rnd, nmax) for _ in range(count)] + [gen_wide_case(rnd) for _ in range(max(16, count // 120))]
     corpus = load_corpus()
     cases = corpus + cases
     lines = [c.line() for c in cases]
